@@ -570,6 +570,7 @@ def rule_v8(ctx):
     sites.append(("ArrayAccess expression", eb, region))
     succ, region = _region(sb, {INNER: "VarAssign"})
     sites.append(("array accessor of an assignment", sb, region))
+    layer_sigs = []
     for label, body, region in sites:
         muxes = []
         for b in sorted(region):
@@ -602,12 +603,41 @@ def rule_v8(ctx):
                 muxes.append((b, t, cls))
         if len(muxes) < 2 and not res.findings:
             raise AnchorMissing("V8: expected the two muxes of the read tree in the %s, found %d" % (label, len(muxes)))
+        # which index bits drive the tree: the Range the selector's position comes from
+        for b, t, cls in muxes[:1]:
+            sig = None
+            for (r, p) in body.trace_operand(t["args"][1], through={}):
+                if r[0] == "call" and mir.last_seg(r[2] or "") == "index":
+                    key = body.term(r[1])["args"][1]
+                    for (r2, p2) in body.trace_operand(key):
+                        if r2[0] in ("range", "iter"):
+                            it = body.term(r2[1])
+                            revd = r2[0] == "iter" and mir.last_seg(r2[2] or "") == "rev"
+                            srcs = body.trace_operand(it["args"][0]) if r2[0] == "iter" else {(("agg", r2[1], None), ())}
+                            for (r3, p3) in body.trace_operand(it["args"][0], through=mir.TRANSPARENT) if r2[0] == "iter" else ():
+                                if r3[0] == "agg":
+                                    a = body.blocks[r3[1]]["stmts"][r3[2]]["rv"]
+                                    if "Range" in (a.get("adt") or ""):
+                                        start = ("const", a["ops"][0].get("val")) if a["ops"][0]["k"] == "const" else ("computed",)
+                                        end = ("len",) if any(rr[0] == "call" and mir.last_seg(rr[2] or "") == "len" for (rr, pp) in body.trace_operand(a["ops"][1])) else ("computed",)
+                                        sig = (start, end, revd)
+            layer_sigs.append((label, sig, t["sp"]))
         for b, t, cls in muxes:
             if cls in (["hi", "lo"], ["const", "lo"]):
                 res.ok({"site": label, "line": t["sp"][1], "verdict": "push_mux(index bit, %s, %s)" % tuple(cls)})
             else:
                 res.bad(Finding("V8", body.id, "%s: mux operands in the wrong order" % label,
                                 "when the index bit is set the element at i + stride (or the out-of-bounds filler) must be selected: expected push_mux(s, hi, lo), found push_mux(s, %s, %s)" % tuple(cls), t["sp"]))
+    # sibling consistency: both copies of the tree are driven by the same index bits
+    if len(layer_sigs) == 2:
+        (l0, s0, sp0), (l1, s1, sp1) = layer_sigs
+        if s0 is None or s1 is None:
+            raise AnchorMissing("V8: cannot see which index bits drive the read tree (%s / %s)" % (s0, s1))
+        if s0 == s1:
+            res.ok({"verdict": "both copies of the read tree are driven by the same range of index bits", "range": str(s0)})
+        else:
+            res.bad(Finding("V8", sites[1][1].id, "the two copies of the array read tree use different index bits",
+                            "%s iterates %s, %s iterates %s: reading a[i] and reading the base of a[i].f = v select different elements" % (l0, s0, l1, s1), sp1))
     return res
 
 
